@@ -125,7 +125,9 @@ contract(FF, "Fragment.replace_child", {"self": "Fragment", "index": "int", "nod
          requires=["0 <= index", "index < len(self.content)"],
          ensures=["self.content[index] == node ==> result == self",
                   "self.content[index] != node ==> result.content == self.content[0:index] + [node] + self.content[index + 1:len(self.content)]",
-                  "result.size == self.size + nsize(node) - nsize(self.content[index])"],
+                  "result.size == self.size + nsize(node) - nsize(self.content[index])",
+                  "len(result.content) == len(self.content)", "result.content[index] == node",
+                  "all_(0, len(self.content), lambda j: implies(j != index, result.content[j] == self.content[j]))"],
          calls=[("pre-update", ["self.content", "index", "node", "len(self.content)"])],
          uses=["pre-nonneg"], props=P2)
 contract(FF, "Fragment.add_to_start", {"self": "Fragment", "node": "Node"}, returns="Fragment",
